@@ -430,5 +430,25 @@ func crafted() []string {
 		}}}}
 	mk(m5, []fga.Tuple{{Obj: "group:a", Rel: "member", User: "user:x"}, {Obj: "group:a", Rel: "allowed", User: "user:x"}},
 		fga.Req{Obj: "group:a", Rel: "member", User: "user:x"})
+	// contextual tuples closing a parent cycle below a self-recursive TTU (seeded change C19c-1: the recursive mapper's
+	// visited filter applied before the contextual tuples are merged in never terminates on this case)
+	mCyc := &fga.Model{Types: []*fga.TypeDef{{Name: "user"},
+		{Name: "group", Rels: []*fga.RelDef{
+			{Name: "parent", Rewrite: this(), Restrs: []fga.Restr{{Typ: "group"}}},
+			{Name: "member", Rewrite: un(this(), ttu("parent", "member")), Restrs: []fga.Restr{u}},
+		}}}}
+	{
+		ts, err := typesystem.NewAndValidate(context.Background(), mCyc.Proto(fgarun.ModelID))
+		if err != nil {
+			panic(fmt.Sprintf("crafted model invalid: %v", err))
+		}
+		for _, rq := range []fga.Req{{Obj: "group:a", Rel: "member", User: "user:x"}, {Obj: "group:b", Rel: "member", User: "user:x"}} {
+			out = append(out, caseLine(mCyc, ts, []fga.Tuple{
+				{Obj: "group:a", Rel: "parent", User: "group:b"}, {Obj: "group:z", Rel: "member", User: "user:x"},
+			}, []fga.Tuple{
+				{Obj: "group:b", Rel: "parent", User: "group:c"}, {Obj: "group:c", Rel: "parent", User: "group:b"},
+			}, rq))
+		}
+	}
 	return out
 }
